@@ -1,7 +1,7 @@
 (* Dispatch.v -- request decoder / response encoder for the extracted model.
    One request = one S-expression (op arg ...); one response = one S-expression. *)
 From Coq Require Import String.
-From Torf Require Import Base Sexp Bencode PyVal Geometry Stream History Convert Validate Export MonList Filesize Regex UrlQuote Magnet Attr.
+From Torf Require Import Base Sexp Bencode PyVal Geometry Stream History Convert Validate Export MonList Filesize Regex UrlQuote Magnet Attr Tree.
 Open Scope Z_scope.
 
 Definition getFile (s : sexp) : option file := getPair getZ getZ s.
@@ -476,6 +476,69 @@ Definition handle_attr (op : list N) (args : list sexp) : option sexp :=
     | _ => None end
   else None.
 
+(* ---- tree (C15) ---- *)
+Definition getStr : sexp -> option (list Z) := getList getZ.
+Definition getPathL : sexp -> option (list (list Z)) := getList getStr.
+Definition StrS (s : list Z) : sexp := L (List.map ZA s).
+
+Fixpoint getRe (fuel : nat) (s : sexp) : option re :=
+  match fuel with
+  | O => None
+  | S f =>
+      match s with
+      | L (A tag :: args) =>
+          if atom_is "cls" tag then option_map RCls (optmap (getPair getZ getZ) args)
+          else if atom_is "seq" tag then option_map RSeq (optmap (getRe f) args)
+          else if atom_is "alt" tag then option_map RAlt (optmap (getRe f) args)
+          else if atom_is "grp" tag then match args with [r] => option_map RGroup (getRe f r) | _ => None end
+          else if atom_is "rep" tag then
+            match args with [n; r] => match getZ n, getRe f r with Some n, Some r => Some (RRep (Z.to_nat n) r) | _, _ => None end | _ => None end
+          else if atom_is "end" tag then Some REnd
+          else if atom_is "endz" tag then Some REndZ
+          else None
+      | _ => None
+      end
+  end.
+
+Definition getRx (s : sexp) : option rx :=
+  match s with
+  | L [b; r] => match getBool b, getRe 50 r with Some b, Some r => Some {| rx_bol := b; rx_body := r |} | _, _ => None end
+  | _ => None end.
+
+Definition getFilters (s : sexp) : option filters :=
+  match s with
+  | L [eg; er; ig; ir] =>
+      match getList getStr eg, getList getRx er, getList getStr ig, getList getRx ir with
+      | Some eg, Some er, Some ig, Some ir => Some {| ex_globs := eg; ex_regexs := er; in_globs := ig; in_regexs := ir |}
+      | _, _, _, _ => None end
+  | _ => None end.
+
+Definition layout_sexp (l : layout) : sexp :=
+  match l with
+  | LEmpty => L [Sy "empty"]
+  | LSingle n len => L [Sy "single"; StrS n; ZA len]
+  | LMulti n fs => L [Sy "multi"; StrS n; L (List.map (fun e : list (list Z) * Z => L [L (List.map StrS (fst e)); ZA (snd e)]) fs)]
+  end.
+
+Definition handle_tree (op : list N) (args : list sexp) : option sexp :=
+  if atom_is "tree.set_path" op then
+    match args with
+    | [cwd; ab; raw; fl; listing] =>
+        match getPathL cwd, getBool ab, getPathL raw, getFilters fl, getList (getPair getPathL getZ) listing with
+        | Some cwd, Some ab, Some raw, Some fl, Some listing =>
+            Some (res_sexp layout_sexp (set_path cwd {| sp_abs := ab; sp_raw := raw |} fl listing))
+        | _, _, _, _, _ => None end
+    | _ => None end
+  else if atom_is "tree.glob" op then
+    match args with
+    | [g; s] => match getStr g, getStr s with Some g, Some s => Some (BA (glob_hit g s)) | _, _ => None end
+    | _ => None end
+  else if atom_is "tree.rx" op then
+    match args with
+    | [r; s] => match getRx r, getStr s with Some r, Some s => Some (BA (rx_hit r s)) | _, _ => None end
+    | _ => None end
+  else None.
+
 Definition handle (req : sexp) : sexp :=
   match req with
   | L (A op :: args) =>
@@ -499,7 +562,11 @@ Definition handle (req : sexp) : sexp :=
                           | None =>
                               match handle_attr op args with
                               | Some r => r
-                              | None => bad_request
+                              | None =>
+                                  match handle_tree op args with
+                                  | Some r => r
+                                  | None => bad_request
+                                  end
                               end
                           end
                       end
